@@ -1,6 +1,7 @@
 package vc
 
 import (
+	"unicode/utf8"
 	"go/types"
 	"math/big"
 	"strings"
@@ -822,6 +823,36 @@ func (e *Exec) next(st *State, fr *Frame, in *ssa.Next) []stfr {
 	c := e.C
 	if it.Kind == "string" {
 		s := it.Str
+		if it.Pos.IsConst() && s.Len.IsConst() && s.Len.C.IsInt64() && s.Len.C.Int64() <= 256 {
+			pos, n := int(it.Pos.C.Int64()), int(s.Len.C.Int64())
+			if pos >= n {
+				fr.Env[in] = TupleVal{c.False(), it.Pos, zeroOf(c, e.sortOf(types.Typ[types.Int32]))}
+				return nil
+			}
+			if cs, isC := concreteString(s); isC {
+				// a constant string is decoded exactly
+				r, w := utf8.DecodeRuneInString(cs[pos:])
+				fr.Env[in] = TupleVal{c.True(), it.Pos, c.NumConst(big.NewInt(int64(r)), e.sortOf(types.Typ[types.Int32]))}
+				fr.Env[in.Iter] = &IterVal{Kind: "string", Str: s, Pos: e.idx(int64(pos + w))}
+				return nil
+			}
+			if it.Ascii == nil && !it.NoAscii {
+				if bs, ok := e.asciiBytes(st, s); ok {
+					it.Ascii = bs
+				} else {
+					it.NoAscii = true
+				}
+			}
+			if it.Ascii != nil {
+				r := it.Ascii[pos]
+				if !e.IntMode {
+					r = c.ZExt(r, 32)
+				}
+				fr.Env[in] = TupleVal{c.True(), it.Pos, r}
+				fr.Env[in.Iter] = &IterVal{Kind: "string", Str: s, Pos: e.idx(int64(pos + 1)), Ascii: it.Ascii}
+				return nil
+			}
+		}
 		ok := e.ltIdx(it.Pos, s.Len)
 		w := c.Fresh("runew", e.idxSort())
 		st.assume(c.And(e.leIdx(e.idx(1), w), e.leIdx(w, e.idx(4))))
@@ -829,7 +860,7 @@ func (e *Exec) next(st *State, fr *Frame, in *ssa.Next) []stfr {
 		r := c.Fresh("rune", e.sortOf(types.Typ[types.Int32]))
 		st.assume(e.rangeFact(r, types.Typ[types.Int32]))
 		fr.Env[in] = TupleVal{ok, it.Pos, r}
-		fr.Env[in.Iter] = &IterVal{Kind: "string", Str: s, Pos: c.Add(it.Pos, w)}
+		fr.Env[in.Iter] = &IterVal{Kind: "string", Str: s, Pos: c.Add(it.Pos, w), NoAscii: it.NoAscii}
 		e.noteAbstract(st, "utf-8 decoding in range over string")
 		return nil
 	}
@@ -987,6 +1018,46 @@ func (e *Exec) asciiBytes(st *State, s *StringVal) ([]*Term, bool) {
 }
 
 func (e *Exec) runesToString(st *State, fr *Frame, in ssa.Instruction, s *SliceVal) Val {
+	// code points of concrete count, all provably in [0, 0x80): one byte each
+	if s.Len.IsConst() && s.Len.C.IsInt64() && s.Len.C.Int64() <= 256 && s.Off.IsConst() {
+		n := int(s.Len.C.Int64())
+		if n == 0 {
+			return e.strConst("")
+		}
+		if s.Obj != 0 {
+			av := e.sliceBacking(st, s)
+			rs := make([]*Term, n)
+			goal := e.C.True()
+			allConst := true
+			for i := range rs {
+				rs[i] = e.sel(av.C, e.C.Add(s.Off, e.idx(int64(i))))
+				allConst = allConst && rs[i].IsConst()
+				if e.IntMode {
+					goal = e.C.And(goal, e.C.ILe(e.C.Inti(0), rs[i]), e.C.ILt(rs[i], e.C.Inti(0x80)))
+				} else {
+					goal = e.C.And(goal, e.C.ULt(rs[i], e.C.BVu(0x80, 32)))
+				}
+			}
+			if allConst {
+				r := make([]rune, n)
+				for i, t := range rs {
+					r[i] = rune(t.SInt().Int64())
+				}
+				return e.strConst(string(r))
+			}
+			if goal.IsTrue() || (!goal.IsFalse() && e.quickValid(st, goal)) {
+				vals := make([]*Term, n)
+				for i, r := range rs {
+					if e.IntMode {
+						vals[i] = r
+					} else {
+						vals[i] = e.C.Extract(7, 0, r)
+					}
+				}
+				return &StringVal{C: &ArrLit{Vals: vals, Rest: &ArrFill{Val: e.C.NumConst(big.NewInt(0), e.elemSort(types.Typ[types.Uint8]))}}, Off: e.idx(0), Len: e.idx(int64(n))}
+			}
+		}
+	}
 	e.UsedIntrinsics["string([]rune) (uninterpreted utf-8 encoding, len <= 4*len(r))"] = true
 	r := e.freshString(st, "runestr", 0)
 	st.assume(e.leIdx(r.Len, e.C.Mul(s.Len, e.idx(4))))
